@@ -326,9 +326,10 @@ class RemoteAssertionTraceObserver(ex.RemoteExecutionObserver):
             depth: The current recursion depth.
             max_depth: The maximum recursion depth.
         """
-        if isinstance(value, float):
+        if isinstance(value, float) and value == value:  # noqa: PLR0124
             trace.add_entry(position, ass.FloatAssertion(source, value))
             return
+        # NaN is not equal to pytest.approx(nan): only its type can be asserted on.
         if is_assertable(value):
             trace.add_entry(position, ass.ObjectAssertion(source, copy.deepcopy(value)))
             return
